@@ -180,7 +180,13 @@ def sort_runs(rows, key):
     return out
 
 
+class ReturnedNone(Exception):
+    """a converter documented to return a network returned None"""
+
+
 def err_kind(ex):
+    if isinstance(ex, ReturnedNone):
+        return "err:none"
     if isinstance(ex, XGIError):
         return "err:lib"
     if isinstance(ex, TypeError):
@@ -206,6 +212,41 @@ CONVERTERS = ["hyperedge_list", "hyperedge_dict", "bipartite_edgelist", "inciden
 DIRECTED_OK = {"bipartite_edgelist", "bipartite_graph", "hif_dict", "class"}
 
 
+TO_FN = {"hg": "to_hypergraph", "dhg": "to_dihypergraph", "sc": "to_simplicial_complex"}
+VIAS = ["ctor", "to", "to-class", "to-instance"]
+
+
+def via_build(case, rep, tgt, r):
+    """representation (or network) -> network of class `tgt` by another public route than the from_* function:
+      ctor         Cls(rep)                                   the class constructor
+      to           xgi.to_<cls>(rep)                          the converter the constructor delegates to, called directly
+      to-class     xgi.to_<cls>(rep, create_using=Cls)
+      to-instance  xgi.to_<cls>(rep, create_using=<instance with a stale node and a stale network attribute>)
+                   ('If hypergraph instance, then cleared before populated': the result is the instance itself)"""
+    via, cls, tofn = case["via"], CLS[tgt], getattr(xgi, TO_FN[tgt])
+    if via == "ctor":
+        return cls(rep)
+    if via == "to":
+        R = tofn(rep)
+    elif via == "to-class":
+        R = tofn(rep, create_using=cls)
+    elif via == "to-instance":
+        inst = cls()
+        inst.add_node("stale-node")
+        inst["stale-attr"] = 1
+        R = tofn(rep, create_using=inst)
+        if R is not None and R is not inst:
+            r["create_using"] = "the network returned is not the instance given as create_using"
+        if "stale-node" in inst.nodes or "stale-attr" in inst._net_attr:
+            r["create_using"] = "the instance given as create_using was not cleared before it was populated"
+        return inst
+    else:
+        raise Infra(f"unknown route {via}")
+    if R is None:
+        raise ReturnedNone(f"xgi.{TO_FN[tgt]}({type(rep).__name__}{', create_using=' + cls.__name__ if via == 'to-class' else ''}) returned None")
+    return R
+
+
 def convert(case):
     """run one converter pair on the real code: returns {"out", "rep", "rt", ...} (canonical)"""
     a = case["net"]
@@ -220,15 +261,32 @@ def _convert(N, a, f, case):
     r = {"out": "ok"}
     using = CLS[case["using"]] if case.get("using") else None
     opt = case.get("opt") or {}
+    via = case.get("via")
+    tgt = case.get("using") or "hg"
     if f == "hyperedge_list":
         L = xgi.to_hyperedge_list(N)
         r["rep"] = [sids(s) for s in L]
-        kw = {"max_order": opt["max_order"]} if "max_order" in opt else {}
-        R = xgi.from_hyperedge_list(L, create_using=using, **kw)
+        kw = {"max_order": opt["max_order"]} if opt.get("max_order") is not None else {}
+        if via and kw:       # max_order travels through from_hyperedge_list only: create_using = an instance
+            R = CLS[tgt]()
+            out = xgi.from_hyperedge_list(L, create_using=R, **kw)
+            if out is not R:
+                r["create_using"] = "the network returned is not the instance given as create_using"
+        else:
+            R = via_build(case, L, tgt, r) if via else xgi.from_hyperedge_list(L, create_using=using, **kw)
     elif f == "hyperedge_dict":
         D = xgi.to_hyperedge_dict(N)
         r["rep"] = [[enc_id(e), sids(s)] for e, s in D.items()]
-        R = xgi.from_hyperedge_dict(D, create_using=using) if using is not xgi.SimplicialComplex else xgi.from_simplex_dict(D)
+        if via:
+            R = via_build(case, D, tgt, r)
+        else:
+            R = xgi.from_hyperedge_dict(D, create_using=using) if using is not xgi.SimplicialComplex else xgi.from_simplex_dict(D)
+    elif f in ("dimembers_dict", "dimembers_list"):
+        # the directed hyperedge dict / list the library itself hands out: DiEdgeView.dimembers
+        D = N.edges.dimembers(dtype=dict) if f == "dimembers_dict" else N.edges.dimembers()
+        items = D.items() if f == "dimembers_dict" else enumerate(D)
+        r["rep"] = [[enc_id(e), sids(t), sids(h)] for e, (t, h) in items]
+        R = via_build(case, D, "dhg", r)
     elif f == "bipartite_edgelist":
         L = xgi.to_bipartite_edgelist(N)
         rows = [[enc_id(t[0]), enc_id(t[1])] + list(t[2:]) for t in L]
@@ -236,7 +294,10 @@ def _convert(N, a, f, case):
         R = xgi.from_bipartite_edgelist(L)
     elif f in ("incidence_labelled", "incidence_unlabelled"):
         I, rd, cd = xgi.to_incidence_matrix(N, sparse=case.get("sparse", True), index=True)
-        M = I.todense().tolist() if case.get("sparse", True) else np.asarray(I).tolist()
+        import scipy.sparse
+        if scipy.sparse.issparse(I) != bool(case.get("sparse", True)):
+            r["matrix_type"] = f"to_incidence_matrix(sparse={case.get('sparse', True)}) returned a {type(I).__name__}"
+        M = I.todense().tolist() if scipy.sparse.issparse(I) else np.asarray(I).tolist()
         rows, cols = [rd[i] for i in range(len(rd))], [cd[j] for j in range(len(cd))]
         r["rep"] = {"M": [[int(x) for x in row] for row in M], "rows": [enc_id(x) for x in rows], "cols": [enc_id(x) for x in cols]}
         if opt.get("index") is False:      # the matrix alone, as a second call would return it
@@ -251,6 +312,8 @@ def _convert(N, a, f, case):
             R = xgi.from_incidence_matrix(I, edgelabels=np.array(cols, dtype=object) if opt.get("array") else cols)
         elif f == "incidence_labelled":
             R = xgi.from_incidence_matrix(I, nodelabels=rows, edgelabels=cols, create_using=using)
+        elif via:
+            R = via_build(case, I, "hg", r)
         else:
             R = xgi.from_incidence_matrix(I, create_using=using)
     elif f == "bipartite_graph":
@@ -270,7 +333,9 @@ def _convert(N, a, f, case):
         rows = [[enc_id(x), enc_id(y)] for x, y in df.values.tolist()]
         r["rep"] = sort_runs(rows, key=lambda t: t[0])
         cols = opt.get("columns")
-        if cols == "names":
+        if via:
+            R = via_build(case, df, tgt, r)
+        elif cols == "names":
             R = xgi.from_bipartite_pandas_dataframe(df, create_using=using, node_column="Node ID", edge_column="Edge ID")
         elif cols == "reordered":      # the edge column first (+ an unrelated third column): found by name
             df2 = df[["Edge ID", "Node ID"]].copy()
@@ -302,7 +367,7 @@ def _convert(N, a, f, case):
             R = xgi.from_hif_dict(d)
     elif f == "class":
         r["rep"] = None
-        R = CLS[case["target"]](N)
+        R = via_build(case, N, case["target"], r) if via else CLS[case["target"]](N)
     else:
         raise Infra(f"unknown converter {f}")
     r["rt"] = snapshot(R)
@@ -405,9 +470,17 @@ def pred(case, r):
         exp = expected_error(case)
         if exp is None:
             name = r["out"].split(":")[-1] if r["out"].startswith("err:other") else \
-                {"err:lib": "XGIError", "err:type": "TypeError", "err:value": "ValueError"}[r["out"]]
-            if r["out"] == "err:type" and "got multiple values for argument" in r.get("msg", ""):
+                {"err:lib": "XGIError", "err:type": "TypeError", "err:value": "ValueError", "err:none": "None"}[r["out"]]
+            if r["out"] == "err:none":
+                # one class per kind of input: a listed finding for one kind must not absorb a None for another
+                kind = {"incidence_unlabelled": "matrix", "hyperedge_list": "list", "hyperedge_dict": "dict", "dimembers_list": "list",
+                        "dimembers_dict": "dict", "class": "network"}.get(f, f)
+                fails.append(("converter-returns-none:" + kind, f"{f} ({a['cls']} network, route {case.get('via')}): {r.get('msg')}"))
+            elif r["out"] == "err:type" and "got multiple values for argument" in r.get("msg", ""):
                 fails.append((KWARG_CLASH, f"{f} on a {a['cls']} network raised {r.get('msg')}: an attribute dict was forwarded as **kwargs"))
+            elif "Members cannot be specified as a string" in r.get("msg", ""):
+                fails.append(("raises-XGIError:members-as-string", f"{f} on a {a['cls']} network raised {r.get('msg')}: a member list whose "
+                              "first label is a string was taken for a (members, ID) pair"))
             else:
                 fails.append(("raises-" + name, f"{f} on a {a['cls']} network raised {r.get('msg', r['out'])}"))
         return fails
@@ -417,10 +490,31 @@ def pred(case, r):
         a = dict(a, edges=[a["edges"][i] for i in keep], eattr=[a["eattr"][i] for i in keep])
     if r.get("index_false"):
         fails.append(("index-false-differs", r["index_false"]))
+    if r.get("matrix_type"):
+        fails.append(("matrix-type", r["matrix_type"]))
+    if r.get("create_using"):
+        fails.append(("create-using", f"{f}, route {case.get('via')}: {r['create_using']}"))
     s, t = a, r["rt"]
     src_inc = inc_of(s)
     und_inc = {(repr(n), repr(e[0])) for e in s["edges"] for n in members_of(e)}
-    if f == "hyperedge_list":
+    if f == "hyperedge_list" and case.get("using") == "sc" and (s["cls"] != "sc" or opt.get("max_order") is not None):
+        # a hyperedge list read into a simplicial complex: every listed edge with all its faces (at least two nodes); with
+        # max_order=k an edge of more than k+1 nodes is replaced by its faces of 2..k+1 nodes
+        k = opt.get("max_order")
+        want = set()
+        for e in s["edges"]:
+            ms = [repr(x) for x in members_of(e)]
+            if ms and (k is None or len(ms) <= k + 1):
+                want.add(frozenset(ms))
+            top = len(ms) - 1 if k is None else min(len(ms) - 1, k + 1)
+            for j in range(2, top + 1):
+                want |= {frozenset(c) for c in itertools.combinations(ms, j)}
+        have = [frozenset(map(repr, e[1])) for e in t["edges"]]
+        if t["cls"] != "sc":
+            fails.append(("network-class", f"result is {t['cls']}, asked for sc"))
+        elif set(have) != want or len(set(have)) != len(have):
+            fails.append(("faces", f"max_order={k}: simplices {sorted(map(sorted, have))} vs the faces of the listed edges {sorted(map(sorted, want))}"))
+    elif f == "hyperedge_list":
         # unlabelled edges: the k-th edge of the result is the k-th edge of the source, IDs 0..m-1
         if [e[0] for e in t["edges"]] != list(range(len(s["edges"]))):
             fails.append(("edge-order", f"edge IDs {[e[0] for e in t['edges']]} are not 0..{len(s['edges']) - 1} in order"))
@@ -429,6 +523,24 @@ def pred(case, r):
     elif f == "hyperedge_dict":
         if sorted(t["edges"], key=lambda e: idkey(e[0])) != sorted(([e[0], members_of(e)] for e in s["edges"]), key=lambda e: idkey(e[0])):
             fails.append(("incidence", f"edge dict {t['edges']} vs source {s['edges']}"))
+    elif f == "dataframe" and case.get("using") == "sc":
+        # a simplicial complex read back into a simplicial complex: the same simplices, and - the dataframe carries
+        # the edge labels - under the same IDs
+        have = sorted(sorted(map(repr, e[1])) for e in t["edges"])
+        want = sorted(sorted(map(repr, members_of(e))) for e in s["edges"])
+        if t["cls"] != "sc":
+            fails.append(("network-class", f"result is {t['cls']}, asked for sc"))
+        elif have != want:
+            fails.append(("incidence", f"simplices {[e[1] for e in t['edges']]} vs source {[e[1] for e in s['edges']]}"))
+        elif inc_of(t) != src_inc:
+            fails.append(("edge-labels", f"the dataframe carries the edge labels {[e[0] for e in s['edges']]} but the simplicial complex "
+                          f"read from it has {[e[0] for e in t['edges']]}: {t['edges']} vs source {s['edges']}"))
+    elif f in ("dimembers_dict", "dimembers_list"):
+        want = [list(e) for e in s["edges"]] if f == "dimembers_dict" else [[i, e[1], e[2]] for i, e in enumerate(s["edges"])]
+        if t["cls"] != "dhg":
+            fails.append(("network-class", f"result is {t['cls']}, asked for dhg"))
+        elif t["edges"] != want:
+            fails.append(("incidence", f"directed edges {t['edges']} vs source {want}"))
     elif f == "dataframe" and opt.get("columns") == "dual":
         want = {(e, n) for n, e in src_inc}
         if inc_of(t) != want:
@@ -631,6 +743,23 @@ def option_cases(rng, a):
             out.append({"f": "hypergraph_dict", "net": a, "opt": {"max_order": k},
                         "nodetype": nodetype_for(ns), "edgetype": nodetype_for(es)})
     out.append({"f": "bipartite_graph", "net": a, "opt": {"index": False}})
+    # other public routes from the representation (or the network) to a network: the class constructor and the
+    # to_hypergraph / to_dihypergraph / to_simplicial_complex converters it delegates to, called directly
+    if not directed:
+        back = a["cls"]       # a simplicial complex is read back as a simplicial complex where a reader for it exists
+        for f in ("hyperedge_list", "hyperedge_dict", "dataframe"):
+            out.append({"f": f, "net": a, "using": back, "via": rng.choice(VIAS)})
+        out.append({"f": "incidence_unlabelled", "net": a, "sparse": rng.random() < 0.5, "via": rng.choice(VIAS)})
+        if back == "sc":
+            out.append({"f": "dataframe", "net": a, "using": "sc"})
+        # a hyperedge list read into a simplicial complex, whole or cut at max_order
+        out.append({"f": "hyperedge_list", "net": a, "using": "sc", "opt": {"max_order": rng.choice([None, 1, 2, 3])}})
+        out.append({"f": "hyperedge_list", "net": a, "using": "sc", "opt": {"max_order": rng.choice([None, 1, 2])}, "via": rng.choice(VIAS)})
+    else:
+        for f in ("dimembers_dict", "dimembers_list"):
+            out.append({"f": f, "net": a, "via": rng.choice(["ctor", "to-class", "to-instance"])})
+    for tgt in (("hg", "dhg", "sc") if directed else ("hg", "sc")):
+        out.append({"f": "class", "net": a, "target": tgt, "via": rng.choice(VIAS[1:])})
     if all_int:
         # real casts: digit-string IDs read back with int (-> the int IDs), int IDs read back without a cast / with str
         b = relabel(a, str, str)
